@@ -101,7 +101,12 @@ def handleDet (st : St) (fid det impl : String) : Verdict :=
             (match dbmOracleOn f.tree locs with | none => ("ok", "") | some w => ("VIOL", w))
           else if det == "unprotected_selfdestruct_vulnerability" then
             (match selfdestructOracleOn f.tree locs with | none => ("ok", "") | some w => ("VIOL", w))
-          else ("na", "")
+          else
+            match expectedSetOf det with
+            | some e =>
+              let want := canonLocs (e f.tree)
+              if want == locs then ("ok", "") else ("VIOL", s!"expected {fmtLocs want}")
+            | none => ("na", "")
         | some s, some locs =>
           if det == "increment_decrement_optimization" && !incDecLocsDistinct f.tree then ("na", "hypothesis IncDecLocsDistinct fails")
           else
